@@ -15,7 +15,7 @@ import (
 	"strings"
 )
 
-func init() { extraGens = append(extraGens, genTypes) }
+func init() { extraGens = append(extraGens, namedGen{"Types.lean", genTypes}) }
 
 // typedConsts returns name -> value of all package-level integer constants whose type is named tname.
 func typedConsts(p *pkgInfo, tname string) map[string]int64 {
